@@ -11,9 +11,10 @@
     loop in `Put` (the loop `break`s at the first ancestor whose priority is
     not larger; it does not repair older heap violations).
   * `merge` is the rotate-down loop of `Delete`: the node to delete is rotated
-    below the child with the *higher-or-equal* priority (left on ties) until it
-    is a leaf — exactly the comparison `left.priority >= right.priority` of the
-    Go code (which, for a min-heap, picks the wrong child; see Props/C19).
+    below the child with the *lower-or-equal* priority (left on ties) until it
+    is a leaf — the comparison `left.priority <= right.priority` of the Go code
+    (before /repo commit "fix: treap Delete rotates the child with the lower
+    priority up" it was `>=`, which broke the heap order; see Props/C19).
   * keys are byte strings compared with `bytes.Compare` = lexicographic
     `compare` on `List UInt8`.
   Core Lean only.
@@ -89,7 +90,7 @@ def merge : Tree → Tree → Tree
   | nil, r => r
   | l, nil => l
   | node ll lk lv lp lr, node rl rk rv rp rr =>
-    if lp ≥ rp then node ll lk lv lp (merge lr (node rl rk rv rp rr))
+    if lp ≤ rp then node ll lk lv lp (merge lr (node rl rk rv rp rr))
     else node (merge (node ll lk lv lp lr) rl) rk rv rp rr
 termination_by l r => size l + size r
 decreasing_by
